@@ -20,6 +20,7 @@ variable [Rules]
 def objEntry (fc : Bool) (x : Name) (D : List ObjDecl) : SymEntry :=
   ⟨.named x, if objInternal D then .local else .global, objKind fc D, some (objSize D), objAlign D⟩
 
+omit [Rules] in
 theorem objSymbol_defined {fc : Bool} {ds : List Decl} {x : Name} (h : objDefined (objDecls ds x) = true) :
     objSymbol fc ds x = some (objEntry fc x (objDecls ds x)) := by
   simp [objSymbol, h, objEntry]
@@ -31,6 +32,7 @@ section
 variable {D : List ObjDecl} (hv : objValid D = true) {d : ObjDecl} (hd : d ∈ D)
 include hv hd
 
+omit [Rules] in
 theorem objValid_static (hx : objInternal D = true → d.isExtern = false) : d.isStatic = objInternal D := by
   simp only [objValid, Bool.and_eq_true] at hv
   have hl := hv.1.1.1.2
@@ -42,6 +44,7 @@ theorem objValid_static (hx : objInternal D = true → d.isExtern = false) : d.i
     · exact h
     · rw [hx hi] at h; cases h
 
+omit [Rules] in
 theorem objValid_tls : objTls D = d.isTls := by
   simp only [objValid, Bool.and_eq_true] at hv
   have ht := hv.1.1.2
@@ -56,6 +59,7 @@ theorem objValid_tls : objTls D = d.isTls := by
   · rw [List.any_eq_true]
     exact ⟨d, hd, hdt⟩
 
+omit [Rules] in
 theorem objValid_ty : WTy (tyP D) d.ty ∧ (d.ty.unknownLen = false → d.ty.size = objSize D) ∧
     (d.ty.unknownLen = true → d.init = none) := by
   simp only [objValid, Bool.and_eq_true] at hv
@@ -77,6 +81,7 @@ theorem objValid_ty : WTy (tyP D) d.ty ∧ (d.ty.unknownLen = false → d.ty.siz
 
 end
 
+omit [Rules] in
 theorem foldl_max_const (A : Nat) : ∀ (D : List ObjDecl) (a0 : Nat), (∀ d, d ∈ D → d.ty.align = A) → D ≠ [] →
     D.foldl (fun a d => max a d.ty.align) a0 = max a0 A
   | [], _, _, h => absurd rfl h
@@ -86,6 +91,7 @@ theorem foldl_max_const (A : Nat) : ∀ (D : List ObjDecl) (a0 : Nat), (∀ d, d
       hA d List.mem_cons_self]
     omega
 
+omit [Rules] in
 /-- `objAlign` is `emit_data`'s alignment rule applied to a type with the composite type's parameters -/
 theorem emitAlign_good {D : List ObjDecl} (hv : objValid D = true) (ha : ∀ d, d ∈ D → 1 ≤ d.ty.align) (hne : D ≠ [])
     {T : ObjTy} (hT : GoodTy (tyP D) T) : emitAlign T = objAlign D ∧ T.size = objSize D := by
@@ -109,15 +115,18 @@ theorem emitAlign_good {D : List ObjDecl} (hv : objValid D = true) (ha : ∀ d, 
   have : max 1 (D.headD default).ty.align = (D.headD default).ty.align := by omega
   rw [this]
 
+omit [Rules] in
 theorem objValid_agree {D : List ObjDecl} (hv : objValid D = true) : tysAgree D = true := by
   simp only [objValid, Bool.and_eq_true] at hv
   exact hv.2
 
+omit [Rules] in
 theorem objValid_align_pos {D : List ObjDecl} (hv : objValid D = true) {d : ObjDecl} (hd : d ∈ D) : 1 ≤ d.ty.align := by
   have := objValid_agree hv
   simp only [tysAgree, Bool.and_eq_true, List.all_eq_true, decide_eq_true_eq] at this
   exact this.1 d hd
 
+omit [Rules] in
 /-- all declarations leave the array length open: each has the element size the composite type has -/
 theorem size_of_allUnknown {D : List ObjDecl} (hv : objValid D = true) (hallU : ∀ d, d ∈ D → d.ty.unknownLen = true)
     {d : ObjDecl} (hd : d ∈ D) : d.ty.size = (tyP D).size := by
@@ -150,15 +159,18 @@ theorem size_of_allUnknown {D : List ObjDecl} (hv : objValid D = true) (hallU : 
 
 /-! ### part 1b: `is_static` of an `extern` declaration that inherits (repaired `global_variable`) -/
 
+omit [Rules] in
 theorem objDecls_cons_obj (y : Name) (s e t : Bool) (ty : ObjTy) (init : Option (List InitItem)) (ds : List Decl) (x : Name) :
     objDecls (.obj y s e t ty init :: ds) x = if y = x then ⟨s, e, t, ty, init⟩ :: objDecls ds x else objDecls ds x := by
   simp only [objDecls, List.filterMap_cons]
   by_cases h : y = x <;> simp [h]
 
+omit [Rules] in
 theorem objDecls_cons_func (f : Name) (n : Nat) (s e i : Bool) (b : Option (List BodyItem)) (ds : List Decl) (x : Name) :
     objDecls (.func f n s e i b :: ds) x = objDecls ds x := by
   simp [objDecls]
 
+omit [Rules] in
 theorem objDecls_append (a b : List Decl) (x : Name) : objDecls (a ++ b) x = objDecls a x ++ objDecls b x := by
   simp [objDecls, List.filterMap_append]
 
@@ -306,6 +318,7 @@ theorem varStatic_eq {ds pre post : List Decl} {x : Name} {s e t : Bool} {ty : O
 
 /-! ### part 2: the objects of the result -/
 
+omit [Rules] in
 theorem mem_blockExterns {y : Name} {ty : ObjTy} : (y, ty) ∈ blockExterns ds ↔
     ∃ f n s e i b tls, Decl.func f n s e i (some b) ∈ ds ∧ BodyItem.externObj y tls ty ∈ b := by
   unfold blockExterns
